@@ -11,7 +11,8 @@
        or accepting 0 bytes of a non-empty buffer with k = WriteZero. *)
 From Coq Require Import NArith List Bool.
 From AV Require Import Generated.Table Spec.Io Spec.Strip Model.Base Model.Utf8parse Model.Parser Model.Strip
-  Model.Stream Proofs.TableFacts Proofs.StripMachine Proofs.StripSim Proofs.StreamIo Proofs.Stream.
+  Model.Stream Proofs.TableFacts Proofs.StripMachine Proofs.StripSim Proofs.StreamIo Proofs.Stream
+  Generated.StreamFn Proofs.StreamGen.
 Import ListNotations.
 Local Open Scope N_scope.
 
@@ -152,3 +153,34 @@ Theorem c06_example :
               = Some (sb_new, w', RErr WouldBlock) /\ w_received w' = []) /\
   spec_strip [97; 98; 27; 91; 48; 109; 90] = [97; 98; 90].
 Proof. vm_compute. repeat split; repeat eexists. Qed.
+
+(* ---- the Rust functions themselves -----------------------------------------------------
+   Generated/StreamFn.v is the TRANSLATION (tools/rs2v, tools/gen_fn_stream.py) of the free
+   functions offset_to / write / write_all / write_fmt of crates/anstream/src/strip.rs and of the
+   `impl io::Write for StripStream` methods that delegate to them, regenerated from the
+   working tree on every run.  The translated code computes exactly what the hand model -- the
+   subject of every theorem above -- computes (conv_n / conv_u only reorder the result triple and
+   rename io::Result to sres).  (fmt::Adapter and write_vectored are hand-modelled, token-pinned;
+   `raw`, `strip_next` and sub-slices of the buffer are vocabulary: see tools/gen_fn_stream.py.) *)
+Theorem c06_translated_offset_to_is_piece_offset :
+  forall total p, g_offset_to total p = Some (p_off p).
+Proof. exact g_offset_to_eq. Qed.
+
+Theorem c06_translated_write_is_model :
+  forall raw s buf, conv_n (g_write raw s buf) = ss_write s buf raw.
+Proof. exact g_write_eq. Qed.
+
+Theorem c06_translated_write_all_is_model :
+  forall raw s buf, conv_u (g_write_all raw s buf) = ss_write_all s buf raw.
+Proof. exact g_write_all_eq. Qed.
+
+Theorem c06_translated_write_fmt_is_model :
+  forall raw s frags, conv_u (g_write_fmt raw s frags) = ss_write_fmt s frags raw.
+Proof. exact g_write_fmt_eq. Qed.
+
+(* the Write methods of StripStream { raw, state }, any operation sequence *)
+Theorem c06_translated_stream_is_model :
+  forall b ops x,
+  match g_ss_run x ops with Some (x1, rs) => Some (ss_state x1, ss_raw x1, rs) | None => None end
+  = run_ops b MStrip (ss_state x) (ss_raw x) ops.
+Proof. exact translated_stream_is_model. Qed.
